@@ -13,6 +13,7 @@ def step (line : String) : String :=
   | "mparse" :: args => runMparse args
   | "eparse" :: args => runEparse args
   | "req" :: args => runReq args
+  | "showreq" :: args => runShowReq args
   | "dnf" :: args => runDnf args
   | "iand" :: args => runIand args
   | "cmp" :: args => runCmp args
